@@ -83,7 +83,7 @@ def run_shard(ctx):
     rng = ctx.rng('c02')
     L = ctx.pick(3, 4)
     max_max = ctx.pick(4, 5)
-    k_opts = ctx.pick(6, 10)
+    k_opts = ctx.pick(10, 16)
     idx = 0
     for length in range(0, L + 1):
         for script in itertools.product(PAIRS, repeat=length):
@@ -112,7 +112,7 @@ def parser_models(ctx):
     recorded check values."""
     import fsic
     rng = ctx.rng('c02-parser')
-    count = ctx.pick(12, 150)
+    count = ctx.pick(40, 600)
     for i in range(count):
         kind = rng.choice(['contractive', 'divergent', 'cycle', 'immediate'])
         if kind == 'contractive':
